@@ -102,13 +102,13 @@ def atQsize (c : Client) : Bool :=
   cases c with | mk pc ret => cases pc <;> cases b <;> simp [notifyIf, notifyClient, atQsize]
 
 structure GrowInv (s : State) : Prop where
-  grow : s.stop = false → s.clients.countP atQsize = 0 →
+  grow : s.cfg.startMayFail = false → s.stop = false → s.clients.countP atQsize = 0 →
     min s.nbPending s.cfg.max ≤ s.nbThreads + (s.clients.map weight).sum
-  floor : s.stop = false → s.clients.countP atQsize = 0 →
+  floor : s.cfg.startMayFail = false → s.stop = false → s.clients.countP atQsize = 0 →
     min s.cfg.min s.cfg.max ≤ s.nbThreads + (s.clients.map startWeight).sum
 
 theorem GrowInv_init (cfg : Config) (n : Nat) : GrowInv (init cfg n) := by
-  refine ⟨?_, ?_⟩ <;> intro h <;> simp [init] at h
+  refine ⟨?_, ?_⟩ <;> intro _ h <;> simp [init] at h
 
 theorem GrowInv_worker {s s' : State} {i : Nat} {w : Worker} {op : Op} {tmo : Bool}
     (hw : s.workers[i]? = some w) (hR : FreshInv s) (hI : GrowInv s)
@@ -118,12 +118,12 @@ theorem GrowInv_worker {s s' : State} {i : Nat} {w : Worker} {op : Op} {tmo : Bo
   unfold workerStep at h
   step_cases
   all_goals (
-    refine ⟨?_, ?_⟩ <;> intro hst hq <;>
+    refine ⟨?_, ?_⟩ <;> intro hnf hst hq <;>
     simp only [setWorker, tdone, acq, rel, updTask, countP_map_eq atQsize _ _ (atQsize_notifyIf _),
       sum_map_map_eq weight _ _ (weight_notifyIf _), sum_map_map_eq startWeight _ _ (startWeight_notifyIf _)]
-      at hst hq ⊢ <;>
-    have h1 := hg hst hq <;>
-    have h2 := hf hst hq <;>
+      at hnf hst hq ⊢ <;>
+    have h1 := hg hnf hst hq <;>
+    have h2 := hf hnf hst hq <;>
     have h3 := hfr hst <;>
     first
     | exact h1
@@ -189,13 +189,13 @@ theorem GrowInv_client {s s' : State} {i : Nat} {c : Client} {op : Op} {tmo : Bo
   unfold clientStep at h
   step_cases
   all_goals (
-    refine ⟨?_, ?_⟩ <;> intro hst hq <;>
+    refine ⟨?_, ?_⟩ <;> intro hnf hst hq <;>
     simp only [setClient, tdone, acq, rel, updTask, put, spawnWorker, countP_set_eq atQsize hc,
       countP_set_map_eq atQsize _ (atQsize_notifyIf _) hc, sum_map_set_eq weight hc, sum_map_set_eq startWeight hc,
       sum_map_set_map_eq weight _ (weight_notifyIf _) hc, sum_map_set_map_eq startWeight _ (startWeight_notifyIf _) hc,
       apply_ite State.nbThreads, apply_ite State.nbPending, apply_ite State.clients, apply_ite State.stop,
-      apply_ite State.cfg, ite_self] at hst hq ⊢ <;>
-    (try (have h1 := hgr hst; have h2 := hfl hst)) <;>
+      apply_ite State.cfg, ite_self] at hnf hst hq ⊢ <;>
+    (try (have h1 := hgr hnf hst; have h2 := hfl hnf hst)) <;>
     clear hgr hfl <;>
     generalize List.countP atQsize s.clients = nq at * <;>
     generalize (List.map weight s.clients).sum = W at * <;>
